@@ -219,8 +219,80 @@ func runBktScenario(rep *Report, sc bktScenario, tag string) {
 		freedLog = freedLog[:0]
 		top := topOf(tx)
 		top.FillPercent = t.Fill
+		// nav walks an opened-bucket path, mirroring every Bucket() call to the model
+		nav := func(path string) (*bolt.Bucket, bool) {
+			cur := top
+			sofar := "."
+			if path == "." {
+				return cur, true
+			}
+			for _, name := range strings.Split(path, "/") {
+				child := cur.Bucket([]byte(unhx(name)))
+				if child == nil {
+					add(fmt.Sprintf("open %s %s", sofar, name), "nil")
+					return nil, false
+				}
+				add(fmt.Sprintf("open %s %s", sofar, name), "ok")
+				child.FillPercent = t.Fill
+				cur = child
+				if sofar == "." {
+					sofar = name
+				} else {
+					sofar += "/" + name
+				}
+			}
+			return cur, true
+		}
+		// openAll opens every bucket nested below b (path p), mirrored to the model
+		var openAll func(b *bolt.Bucket, p string)
+		openAll = func(b *bolt.Bucket, p string) {
+			var names []string
+			_ = b.ForEachBucket(func(k []byte) error { names = append(names, hx(string(k))); return nil })
+			for _, n := range names {
+				c := b.Bucket([]byte(unhx(n)))
+				if c == nil {
+					add(fmt.Sprintf("open %s %s", p, n), "nil")
+					continue
+				}
+				add(fmt.Sprintf("open %s %s", p, n), "ok")
+				c.FillPercent = t.Fill
+				np := n
+				if p != "." {
+					np = p + "/" + n
+				}
+				openAll(c, np)
+			}
+		}
 		for _, o := range t.Ops {
 			f := strings.Fields(o)
+			if f[1] == "mv" {
+				// "<src> mv <name> <dst>": the moved bucket is opened with everything nested in it first
+				src, ok1 := nav(f[0])
+				if !ok1 {
+					continue
+				}
+				dst, ok2 := nav(f[3])
+				if !ok2 {
+					continue
+				}
+				if c := src.Bucket([]byte(unhx(f[2]))); c != nil {
+					add(fmt.Sprintf("open %s %s", f[0], f[2]), "ok")
+					c.FillPercent = t.Fill
+					np := f[2]
+					if f[0] != "." {
+						np = f[0] + "/" + f[2]
+					}
+					openAll(c, np)
+				}
+				if err := src.MoveBucket([]byte(unhx(f[2])), dst); err == nil {
+					add(fmt.Sprintf("mv %s %s %s", f[0], f[2], f[3]), "ok")
+					rep.count("move-bucket")
+				} else {
+					add(fmt.Sprintf("mv %s %s %s", f[0], f[2], f[3]), "refused")
+					rep.count("move-bucket-refused")
+				}
+				continue
+			}
 			cur := top
 			sofar := "."
 			ok := true
@@ -488,6 +560,36 @@ func bktGenScenario(rng *rand.Rand, ntx int, forceRoot bool) bktScenario {
 				tx.Ops = append(tx.Ops, p+" mk "+name)
 				if _, ok := s.kids[name]; !ok {
 					s.kids[name] = &bkShadow{kids: map[string]*bkShadow{}, keys: map[int]bool{}}
+				}
+			case r >= 18: // move a sub-bucket (mostly an existing one) to another bucket
+				name := hx(fmt.Sprintf("b%d", rng.Intn(6)))
+				if len(s.kids) > 0 && rng.Intn(5) != 0 {
+					var ns []string
+					for n := range s.kids {
+						ns = append(ns, n)
+					}
+					sort.Strings(ns)
+					name = ns[rng.Intn(len(ns))]
+				}
+				q, ds := pick()
+				for tries := 0; tries < 4 && ds == s; tries++ {
+					q, ds = pick()
+				}
+				if sc.Root && (q == "." || p == ".") {
+					break // moving top-level buckets needs Tx.MoveBucket; keep to nested ones
+				}
+				tx.Ops = append(tx.Ops, p+" mv "+name+" "+q)
+				moved := p + "/" + name
+				if p == "." {
+					moved = name
+				}
+				if sub, ok := s.kids[name]; ok && ds != s && q != moved && !strings.HasPrefix(q, moved+"/") {
+					if _, exists := ds.kids[name]; !exists {
+						if _, isKey := ds.keys[-1]; !isKey {
+							delete(s.kids, name)
+							ds.kids[name] = sub
+						}
+					}
 				}
 			case r < 4: // delete a sub-bucket (existing or not)
 				name := hx(fmt.Sprintf("b%d", rng.Intn(6)))
